@@ -32,7 +32,9 @@ using S = bitset_detail::IntBitSet<uint8_t>;
 
 // libstdc++ growth policy stub: the first reallocation of these vectors allocates VCAP elements at once and a second one is asserted not to happen. Capacity is
 // unobservable for the code under test; without this, every push_back site carries a symbolic-size reallocation-and-copy path.
+#ifndef VCAP
 #define VCAP 8
+#endif
 #define VERIF_VECTOR_PREALLOC(T)                                                                                              \
     template <> template <> void std::vector<T>::_M_realloc_insert<T>(iterator pos, T&& x)                                       \
     {                                                                                                                         \
@@ -183,7 +185,7 @@ static void sym_perm(const Cluster& c, uint32_t* L)
 // MODE 0: ChunkLinearization / ChunkLinearizationInfo against the hull oracle (any permutation)      MODE 5: DepGraph closure / reduction against Warshall
 // MODE 1: PostLinearize of a topological linearization
 // MODE 2: Linearize improving a topological linearization     MODE 3: Linearize from scratch     MODE 4: Linearize from a non-topological order
-template <int MODE, int NTX, int REAL, int DEPMASK>
+template <int MODE, int NTX, int REAL, int DEPMASK, int WIT>
 static void run()
 {
     Cluster c; DepGraph<S> dg;
@@ -280,7 +282,7 @@ static void run()
     }
     if (MODE == 1 || MODE == 2) {
         const bool back = diagram_ge(Pin, Pout, NTX);
-        VWITNESS(!back, "strictly improved");
+        if (WIT & 1) VWITNESS(!back, "strictly improved");
         VWITNESS(back, "unchanged diagram");
     }
     if (MODE == 1 || MODE == 2) VASSERT(diagram_ge(Pout, Pin, NTX), "feerate diagram of the output is >= the diagram of the input at every point (hull oracle)");
